@@ -180,7 +180,10 @@ func (e *Exec) inlineOK(fn *ssa.Function) bool {
 }
 
 // InlineAllow lists library functions that are pure and global-free.
-var InlineAllow = map[string]bool{}
+var InlineAllow = map[string]bool{
+	"sort.SearchInts": true, "sort.Search": true, "sort.SearchFloat64s": true,
+	"sort.SearchInts$1": true, "sort.SearchFloat64s$1": true,
+}
 
 func (e *Exec) builtin(st *State, b *ssa.Builtin, c *ssa.CallCommon, args []Val, where string) Val {
 	s := e.S
